@@ -45,16 +45,6 @@ def dims_of(terms):
   return d
 
 
-def _fpow(base: F, e: F) -> float:
-  """base**e for a positive rational base and a half-integer exponent, correctly rounded to ~1 ulp."""
-  if e.denominator == 1:
-    return float(base ** int(e))
-  # half-integer: sqrt of an exact rational power
-  r = base ** int(e.numerator)
-  return math.sqrt(r.numerator / r.denominator) if r.numerator < 2 ** 1000 and r.denominator < 2 ** 1000 \
-      else math.exp(0.5 * (math.log(r.numerator) - math.log(r.denominator)))
-
-
 def si_factor(terms) -> float:
   """Factor converting a magnitude expressed in the product of terms to SI base units."""
   whole = F(1)
